@@ -155,14 +155,11 @@ def guarded(rec, case, sig, fn, *args, **kw):
         return True, fn(*args, **kw)
     except Exception as e:
         tb = traceback.extract_tb(e.__traceback__)
-        inner = tb[-1].filename if tb else ''
-        frames = [fr.filename for fr in tb]
-        in_pyiga = any(('/pyiga/' in f and '/lib/verif' not in f and '/checks/' not in f) for f in frames) or \
-                   any(('scipy' in f or 'numpy' in f) for f in frames[1:]) and any('/pyiga/' in f for f in frames)
-        # exceptions raised by compiled pyiga code have no Python frame of their own: treat an
-        # exception whose innermost Python frame is the harness call site as coming from the callee
-        if not in_pyiga and len(tb) <= 1:
-            in_pyiga = True
+        here = os.path.normpath(os.path.join(os.path.dirname(__file__), '..', '..'))
+        inner = os.path.normpath(tb[-1].filename) if tb else ''
+        # the exception belongs to the code under test unless its innermost Python frame is a
+        # harness file other than this call site (a compiled pyiga function has no frame of its own)
+        in_pyiga = (not inner.startswith(here)) or len(tb) <= 1
         if in_pyiga:
             s = dict(sig); s.update(exc_sig(e))
             rec.violation(s, case, {'message': str(e)[:500], 'trace': [('%s:%d:%s' % (os.path.basename(fr.filename), fr.lineno, fr.name)) for fr in tb[-6:]]})
